@@ -202,6 +202,7 @@ func (s *Sim) Run(root func()) {
 func (s *Sim) Steps() int        { return s.steps }
 func (s *Sim) Now() int64        { return s.now }
 func (s *Sim) Dead() bool        { return s.dead }
+func (s *Sim) RootDone() bool    { return s.rootDone }
 func (s *Sim) TraceHash() uint64 { return s.traceHash }
 func (s *Sim) NumG() int         { return len(s.gs) }
 func (s *Sim) Cur() *G           { return s.cur }
